@@ -155,16 +155,18 @@ class Block(Node):
         if hasattr(self, 'inner'):
             if self.name.subparse and len(self.inner) > 0:  # @media
                 inner = ''.join([p.fmt(fills) for p in self.inner])
-                inner = inner.replace(fills['nl'],
-                                      fills['nl'] + fills['tab']).rstrip(
-                                          fills['tab'])
-                if not fills['nl']:
-                    inner = inner.strip()
-                fills.update({
-                    'identifier': name,
-                    'proplist': fills['tab'] + inner
-                })
-                out.append(f % fills)
+                if inner.strip():
+                    # (rules that print nothing leave nothing to wrap)
+                    inner = inner.replace(fills['nl'],
+                                          fills['nl'] + fills['tab']).rstrip(
+                                              fills['tab'])
+                    if not fills['nl']:
+                        inner = inner.strip()
+                    fills.update({
+                        'identifier': name,
+                        'proplist': fills['tab'] + inner
+                    })
+                    out.append(f % fills)
             else:
                 out.append(''.join([p.fmt(fills) for p in self.inner]))
         return ''.join(out)
